@@ -127,8 +127,30 @@ def main(tier, seed):
             f = m.split(" ")
             if len(f) != 4 or dec_text(f[0]) != so or rc != 0:
                 rep.violation("correspondence", {"what": "listing of `check` differs from the model", "text": texts[i][:300], "impl": so[-600:], "model": dec_text(f[0])[-600:] if len(f) == 4 else m[:100]})
-            lines = [l.split("  ", 1)[1] for l in so.split("\n")[1:] if "  " in l]
-            # distinct commands must have distinct listing lines (injectivity on what was actually listed)
+        # the listing determines the command: near-twin commands (differing in one heart, one count or the kind)
+        # must print different `KIND_h_d AREA` texts
+        import itertools
+        twins = []
+        ctxs = [lambda x: x, lambda x: (0, x, None), lambda x: (0, None, x), lambda x: (0, None, (1, x, None)), lambda x: (0, (1, None, x), leaf(2))]
+        for a, b in itertools.combinations(range(2, 14), 2):
+            for ctx in (ctxs[0], rng.choice(ctxs[1:])):
+                k, h, d = rng.randrange(6), rng.choice([1, 2, 3]), rng.choice([0, 1, 2, 5])
+                twins.append(((k, h, d, ctx(leaf(a))), (k, h, d, ctx(leaf(b)))))
+        for _ in range(30):
+            k, h, d = rng.randrange(6), rng.choice([1, 2, 3, 10]), rng.choice([0, 1, 2, 9, 10, 99])
+            ar = rng.choice([None, leaf(rng.randrange(2, 14)), (0, leaf(3), None)])
+            twins.append(((k, h, d, ar), rng.choice([(k, h, d + 1, ar), (k, h + 1, d, ar), ((k + 1) % 6, h, d, ar)])))
+        for j, (c1, c2) in enumerate(twins):
+            path = os.path.join(tmp, "t%d.hyeong" % j)
+            open(path, "w", encoding="utf-8").write(render_prog([c1, c2]))
+            q = subprocess.run([HYEONG_BIN, "--color", "never", "check", path], stdout=subprocess.PIPE, stderr=subprocess.PIPE, timeout=30)
+            ls = [l.split("  ", 1)[1] for l in q.stdout.decode("utf-8", "replace").split("\n")[1:] if "  " in l]
+            rep.count("listing-twins")
+            if q.returncode != 0 or len(ls) != 2:
+                rep.violation("correspondence", {"what": "unexpected listing for a two-command file", "text": render_prog([c1, c2]), "stdout": q.stdout.decode("utf-8", "replace")[-300:], "status": q.returncode})
+            elif ls[0] == ls[1]:
+                rep.violation("impl-vs-spec", {"what": "two different commands print the same listing line", "commands": [enc_cmd(c1), enc_cmd(c2)], "text": render_prog([c1, c2]), "line": ls[0],
+                                               "match_key": "twins %s %s" % (enc_cmd(c1), enc_cmd(c2))})
         shutil.rmtree(tmp, ignore_errors=True)
         rep.sample({"text": texts[1][:300], "commands": wants[1][:300]}); rep.sample({"text": texts[5][:300], "commands": wants[5][:300]})
         extra = {"statistics": stats}
